@@ -133,6 +133,26 @@ impl Display for DocumentConfig {
     }
 }
 
+/// Renders a text as double quoted YAML scalar, so that it reads back verbatim
+/// from within the one-line (flow) form
+fn yaml_double_quoted(text: &str) -> String {
+    format!("\"{}\"", text.replace('\\', "\\\\").replace('"', "\\\""))
+}
+
+/// Renders a text for the one-line (flow) form: verbatim if it is a harmless
+/// plain scalar, double quoted otherwise
+fn yaml_flow_scalar(text: &str) -> String {
+    let is_plain = !text.is_empty()
+        && text
+            .chars()
+            .all(|ch| ch.is_ascii_alphanumeric() || matches!(ch, '/' | '.' | '_' | '-'));
+    if is_plain {
+        text.to_string()
+    } else {
+        yaml_double_quoted(text)
+    }
+}
+
 fn is_none_or_default_timeout(timeout: &Option<Duration>) -> bool {
     if let Some(timeout) = timeout {
         timeout.as_secs() == DEFAULT_DOCUMENT_TIMEOUT
@@ -452,7 +472,7 @@ impl TestCaseConfig {
                 output.push(format!(
                     "wait: {{timeout: {}, path: {}}}",
                     duration,
-                    path.to_string_lossy(),
+                    yaml_flow_scalar(&path.to_string_lossy()),
                 ))
             } else {
                 output.push(format!("wait: {}", duration))
@@ -461,8 +481,7 @@ impl TestCaseConfig {
         if !self.environment.is_empty() {
             let mut envvars = vec![];
             for (key, value) in self.environment.iter() {
-                // TODO: this will bereak break if the value contains double quotes => use `quote-string` crate?
-                envvars.push(format!("{}: \"{}\"", key, value))
+                envvars.push(format!("{}: {}", key, yaml_double_quoted(value)))
             }
             output.push(format!("environment: {{{}}}", envvars.join(", ")));
         }
